@@ -26,6 +26,19 @@ def run(ctx):
     quick = ctx.tier == "quick"
     reg, rnd = S.run_life(ctx, "C06", exe, 200 if quick else 3000, 200 if quick else 3000)
     S.coverage(ctx, reg, rnd, RULE)
+    # "the replacement goes to the same destination": two sessions at the same time through one real TCP handler, the pool connection
+    # of the earlier one breaks — its replacement is authorised as Model/Cred says for the configured destination and *that* miner
+    rc, out = L.run_harness(ctx, exe, "TestVerifC17Handler$", env={"VERIF_N": 60 if quick else 1200}, timeout=600)
+    himpl = ctx.out + "/c17h.impl.txt"
+    if rc != 0:
+        ctx.tie_failures.append("handler harness run failed (rc=%d): %s" % (rc, out[-300:]))
+    elif L.drv("model", "c17", himpl, himpl + ".model.txt")[0] == 0:
+        for d in L.diff_cases(himpl, himpl + ".model.txt")[:1]:
+            L.violation(ctx, "c06:replacement-authorised-for-another-destination-account", "one TCP handler, sessions side by side: a pool connection (first one of a session, or the one that replaces a broken one) was authorised as %r; for the configured destination and that session's miner it is %r (hex user, hex password)" % (d["impl"], d["other"]),
+                        {"clause": "relaying resumes through one replacement connection to the same destination", "case": d["header"],
+                         "ops": [l for l in d["lines"][:d["first"] + 1] if l.startswith("> ")], "seed": ctx.seed,
+                         "how_to_replay": "VERIF_SEED=<seed> bin/check C06 --tier quick (the handler harness is seeded; the case header names the case)"})
+        ctx.coverage["handler_sessions_compared"] = sum(1 for h, ls in L.parse_cases(himpl) for l in ls if l.startswith("> "))
     # real time: a destination change still in its dial / handshake when the reconnect wait ends (Proxy.Run then waits on a
     # sync.Mutex, which freezes a synctest clock); four variants run in parallel against the wall clock (about 10 s)
     def rt_run():
